@@ -121,11 +121,19 @@ impl Scenario for C01 {
         g.max_threads = 3;
         g.max_ops = 40;
         g.read_faults = false;
-        let gen = gen_session(&mut cs, &g);
+        let mut gen = gen_session(&mut cs, &g);
+        // a fifth of the sessions are cut short by the server closing the connection while frames are queued
+        // or half written: what the client has written by the end must still be whole frames, CloseOk last
+        let server_close = cs.choose("c01_server_close", 5) == 0;
+        if server_close {
+            let at = 1_000 * (60 + cs.choose("c01_server_close_at_us", 15_000) as u64);
+            gen.broker.script.push((crate::broker::Trigger::AtTime(at), crate::broker::Action::CloseConnection { code: 320, text: "CONNECTION_FORCED-c01".into() }));
+        }
         let (res, world) = run_generated(&gen, cs, text, |_| {});
         let mut rep = CaseReport::default();
         fill_common(&mut rep, &res, &world);
         rep.sample = plan_summary(&gen);
+        rep.count("c01.server_close_sessions", server_close as u64);
         let n = world.net.lock().unwrap();
         let inside = n.stats.short_write_inside_frame + n.stats.would_block_inside_frame;
         rep.nontrivial = !gen.plan.threads.is_empty() && inside > 0;
@@ -147,7 +155,10 @@ impl Scenario for C01 {
             return rep;
         }
         let complete = true;
-        wire_oracle(&mut rep, "", &n.c2s, &res.hist, gen.frame_max, complete, true);
+        // when the server closed the connection calls fail at arbitrary points: the per-channel sequence is
+        // not defined, the envelope (header + whole, decodable frames) is
+        let cut_short = world.broker.sent.iter().any(|s| matches!(s.kind, crate::broker::SentKind::ConnectionClose { .. }));
+        wire_oracle(&mut rep, "", &n.c2s, &res.hist, gen.frame_max, complete, !cut_short);
         rep
     }
 }
